@@ -115,8 +115,15 @@ class Vec:
                 self.assign(st.target, self.eval(st.value, mask), mask)
             return
         if isinstance(st, ast.AugAssign):
-            cur = self.eval(ast.Name(id=st.target.id, ctx=ast.Load()), mask) if isinstance(st.target, ast.Name) else None
-            if cur is None:
+            if isinstance(st.target, ast.Name):
+                cur = self.eval(ast.Name(id=st.target.id, ctx=ast.Load()), mask)
+            elif isinstance(st.target, ast.Attribute):
+                # `x.a op= v` is `x.a = x.a op v` (the receiver is a plain name in the code analysed: evaluated once either way)
+                import copy
+                load = copy.deepcopy(st.target)
+                load.ctx = ast.Load()
+                cur = self.eval(ast.copy_location(load, st), mask)
+            else:
                 raise AnalysisError(f"augmented assignment to {ast.unparse(st.target)} not modelled")
             v = self.binop(st.op, cur, self.eval(st.value, mask))
             self.assign(st.target, v, mask)
